@@ -36,6 +36,9 @@ TEMPLATES = {
     "uod_in_macro": "Macro: X\n    CmdA\nCall macro: X\nCall macro: X\nMark: M1\nWait: 2s\n",
     # two interrupt flows each starting a block while the main flow's block is active: both must queue for the lock
     "two_watch_blocks": "Watch: In1 > 0\n    Block: WB1\n        Mark: W1\n        End block\nWatch: In1 > 0\n    Block: WB2\n        Mark: W2\n        End block\nBlock: B1\n    Mark: M1\n    Wait: 0.5s\n    End block\nMark: M2\n",
+    # a Block between two Marks in a body that is invoked repeatedly (macro called twice, re-arming Alarm)
+    "block_in_macro": "Macro: X\n    Mark: X1\n    Block: XB\n        Mark: X2\n        End block\n    Mark: X3\nMark: M1\nCall macro: X\nMark: M2\nCall macro: X\nMark: M3\n",
+    "block_between_in_alarm": "Alarm: In1 > 0\n    Mark: A0\n    Block: BA\n        Mark: A1\n        End block\n    Mark: A2\nMark: M1\n",
     # openers whose body is empty or only a comment / blank line: the following lines belong to the enclosing scope
     "empty_openers": "Block: B1\n    Watch: In1 > 0\n    # comment\n    Mark: M1\n    End block\nMark: M2\nWatch: In1 > 0\n\nMark: M3\n",
 }
@@ -303,8 +306,8 @@ def check_trace(sym, sc: Scenario, pcode: str, want: set, forced_ids=(), cancell
     def live_at(B, t, slack=1):
         return any(s0 <= t and (e0 is None or t <= e0 + slack) for s0, e0 in iv.get(B, []))
 
-    def ended_by(B, t):
-        return any(e0 is not None and e0 <= t for _s, e0 in iv.get(B, []))
+    def ended_by(B, t, since=-1):
+        return any(e0 is not None and since <= e0 <= t for _s, e0 in iv.get(B, []))
 
     # ---- C05: Block tag names the innermost active block at the end of every tick ---------------
     if "C05" in want:
@@ -363,7 +366,7 @@ def check_trace(sym, sc: Scenario, pcode: str, want: set, forced_ids=(), cancell
                 # not ahead of us: either a repeat/out-of-order effect, or (alarm / macro re-run) a new invocation
                 if kind == "alarm":
                     # previous run must be complete (everything left is legitimately skipped)
-                    _check_skips(sym, want, S, ptr, len(S), ended_by, t, f"{kind}:{ln.arg if ln else ''}")
+                    _check_skips(sym, want, S, ptr, len(S), ended_by, t, f"{kind}:{ln.arg if ln else ''}", last_effect_tick)
                     runs += 1
                     last_run_end_tick = last_effect_tick - 1   # the previous run's last observed effect: it completed no earlier
                     ptr = 0
@@ -378,7 +381,7 @@ def check_trace(sym, sc: Scenario, pcode: str, want: set, forced_ids=(), cancell
                     elif "C04" in want and kind == "watch":
                         sym.check(False, "C04|watch-body-ran-again", f"{k} {n!r} of the Watch body at tick {t} is a repeat: a Watch runs once; trace {mark_tick}")
                     break
-            _check_skips(sym, want, S, ptr, j, ended_by, t, f"{kind}:{ln.arg if ln else ''}")
+            _check_skips(sym, want, S, ptr, j, ended_by, t, f"{kind}:{ln.arg if ln else ''}", last_effect_tick)
             blocks = S[j][2]
             if "C05" in want or "C02" in want:
                 for B in blocks:
@@ -406,8 +409,9 @@ def check_trace(sym, sc: Scenario, pcode: str, want: set, forced_ids=(), cancell
                     # activation needs a tick with the condition true since the previous run ended (or a force)
                     lo = last_run_end_tick + 1 if kind == "alarm" else 0
                     truth = any(sc.in1[x] == 1 for x in range(max(0, lo - 1), min(t + 1, len(sc.in1))))
+                    # (a force serves one invocation: for a later invocation of an Alarm it must have been requested after the previous run)
                     forced = any(ev.get("kind") == "force" and ev.get("raised") is None and ev.get("target") is not None
-                                 and ev["target"]["name"].startswith(kind.capitalize()) for ev in sc.events)
+                                 and ev["target"]["name"].startswith(kind.capitalize()) and ev["tick"] >= last_run_end_tick for ev in sc.events)
                     sym.check(truth or forced, f"C04|{kind}-ran-without-condition",
                               f"{kind} body started at tick {t} but In1 was never 1 in ticks {lo}..{t} (In1={sc.in1}) and it was not forced")
                 nested_in_alarm = False
@@ -431,14 +435,15 @@ def check_trace(sym, sc: Scenario, pcode: str, want: set, forced_ids=(), cancell
         sym.reach()
 
 
-def _check_skips(sym, want, S, lo, hi, ended_by, t, flow):
-    """Elements S[lo:hi] were passed over without being observed: legitimate only inside a block that has ended."""
+def _check_skips(sym, want, S, lo, hi, ended_by, t, flow, since=-1):
+    """Elements S[lo:hi] were passed over without being observed: legitimate only inside a block that has ended -- and ended
+    no earlier than the flow's previous effect (`since`): an end event from an earlier invocation of the same body does not count."""
     if "C02" not in want:
         return
     for i in range(lo, hi):
         k, n, blocks = S[i]
         if k not in ("mark", "uod"):
             continue
-        ok = any(ended_by(B, t) for B in blocks)
+        ok = any(ended_by(B, t, since) for B in blocks)
         sym.check(ok, f"C02|skipped-instruction|flow={flow.split(':')[0]}",
                   f"{k} {n!r} of flow {flow} was passed over (a later instruction ran at tick {t}) although no enclosing block had ended")
